@@ -323,6 +323,349 @@ def dpr_summarize(cases, outs, h, k):
 
 
 # ================================================================================================
+# `dpr` component, C28 part: discontiguous MonotonePageResources over the same private Map32
+# ================================================================================================
+PGC = 1024                         # pages in a chunk
+MONO_DESCS = [40, 44, 48, 52]
+
+
+def parse_mono(txt):
+    """` mono=` entries of a state dump → list of dicts (cursor / sentinel in bytes)."""
+    d = dict(f.split("=", 1) for f in txt.split())
+    out = []
+    for e in (d.get("mono") or "").split(";"):
+        if not e:
+            continue
+        f = e.split(",")
+        grants = [] if f[7] == "-" else [(int(g.split("+")[0]), int(g.split("+")[1].split("*")[0]), int(g.split("*")[1])) for g in f[7].split("/")]
+        out.append(dict(cursor=int(f[0]), sentinel=int(f[1]), cc=f[2], res=int(f[3]), com=int(f[4]), head=int(f[5]),
+                        list=[] if f[6] == "-" else [tuple(int(x) for x in r.split(":")) for r in f[6].split("/")], grants=grants))
+    return out
+
+
+def mono_gen(rng, n, debug):
+    """Histories over 1..3 monotone resources and 0..2 free-list-side page resources sharing the pool of 32 chunks:
+    exhaust the pool from the monotone side / from the free-list side / fragment it; retry after a failure; release and
+    retry; request more chunks than remain; reset after grants and after failures. In the debug profile the cursor of a
+    resource that stands two or more chunks above its current chunk makes the next request self-deadlock (known finding;
+    the harness answers `deadlock` instead of calling, a probe under a timeout shows the real hang): the generator resets
+    such a resource first, 9 times out of 10."""
+    cases = []
+    for i in range(n):
+        sim = _Sim()
+        nsp = rng.choice([1, 1, 1, 2])
+        nm = rng.choice([1, 1, 2, 3])
+        ops = [f"dpr new {nsp}"] + [f"dpr mnew {MONO_DESCS[k]}" for k in range(nm)]
+        owned = [[] for _ in range(nsp)]
+        mown = [[] for _ in range(nm)]
+        left = [0] * nm                 # pages left in the current region (simulation: only steers the generator)
+        kind = rng.choice(["mono-exhaust", "fl-exhaust", "fragment", "random", "random"])
+        malformed = rng.random() < 0.06
+
+        off = [0] * nm                  # cursor - current chunk, in pages (simulation)
+        cz = [True] * nm                # the cursor is zero (fresh, after a reset, after a FAILED growth)
+
+        def malloc(k, pages):
+            if debug and off[k] >= 2 * PGC and rng.random() < 0.9:
+                ops.append(f"dpr mreset {k}"); reset(k, emit=False)
+            ops.append(f"dpr malloc {k} {pages}")
+            if pages <= left[k]:
+                left[k] -= pages; off[k] += pages
+                return True
+            rc = -(-pages // PGC)
+            c = sim.alloc(rc)
+            if c is None:
+                left[k] = 0; off[k] = 0; cz[k] = True
+                return False
+            mown[k].insert(0, c); left[k] = rc * PGC - pages; off[k] = pages; cz[k] = False
+            return True
+
+        def reset(k, emit=True):
+            if emit:
+                ops.append(f"dpr mreset {k}")
+            off[k] = 0
+            # release_all only happens when the cursor is non-zero
+            if mown[k] and not cz[k]:
+                l = mown[k]
+                for c in l[1:] + l[:1]:
+                    sim.free(c)
+                l.clear()
+            left[k] = 0; cz[k] = True
+
+        failed = [False] * nm
+
+        def grow(sp, k):
+            ops.append(f"dpr grow {sp} {4 * (sp + 1)} {k}")
+            c = sim.alloc(k)
+            if c is not None:
+                owned[sp].insert(0, c)
+
+        def free_chunks():
+            return sum(sz for sz, fr in sim.runs.values() if fr)
+
+        if kind == "fl-exhaust" and nsp:
+            keep = rng.choice([0, 0, 1, 2, 3])
+            grow(0, max(1, free_chunks() - keep))
+            if rng.random() < 0.5 and nsp > 1 and free_chunks() > 1:
+                grow(1, 1)
+        elif kind == "fragment" and nsp:
+            for j in range(rng.choice([6, 10, 16, 32])):
+                grow(j % nsp if nsp > 1 else 0, 1)
+            for sp in range(nsp):
+                for c in list(owned[sp])[::2] if nsp == 1 else (list(owned[sp]) if sp == 1 else []):
+                    owned[sp].remove(c); ops.append(f"dpr release {sp} {c}"); sim.free(c)
+        for j in range(rng.randrange(4, 30)):
+            r = rng.random()
+            k = rng.randrange(nm)
+            if kind == "mono-exhaust" and r < 0.7:
+                ok = malloc(k, rng.choice([512, 1024, 1024, 1536, 2047 if debug else 2048, 1000, 4000 if not debug else 1024]))
+                failed[k] = not ok
+                if not ok and rng.random() < 0.6:
+                    failed[k] = not malloc(k, rng.choice([1, 100, 1024, 1025]))      # retry after the failure
+            elif r < 0.55:
+                avail_pages = free_chunks() * PGC
+                pages = rng.choice([1, 1, 8, 100, 256, 512, 513, 1023, 1024, 1025, 1500, 2047, 2048, 2049, 3000, 4096,
+                                    max(1, left[k]), left[k] + 1, max(1, avail_pages), avail_pages + 1, 33 * PGC, rng.randrange(1, 5000)])
+                failed[k] = not malloc(k, pages)
+            elif r < 0.70 and nsp:
+                grow(rng.randrange(nsp), rng.choice([1, 1, 2, 3, 5, 8, max(1, free_chunks()), max(1, free_chunks() - 1), free_chunks() + 1]))
+            elif r < 0.82 and any(owned):
+                sp = rng.choice([s for s in range(nsp) if owned[s]])
+                c = owned[sp].pop(rng.randrange(len(owned[sp])))
+                ops.append(f"dpr release {sp} {c}"); sim.free(c)
+            elif r < 0.86 and any(owned):
+                sp = rng.choice([s for s in range(nsp) if owned[s]])
+                ops.append(f"dpr releaseall {sp}")
+                l = owned[sp]
+                for c in l[1:] + l[:1]:
+                    sim.free(c)
+                l.clear()
+            elif r < 0.96:
+                reset(k); failed[k] = False
+            else:
+                ops.append("dpr state")
+        if malformed:
+            ops += rng.choice([[f"dpr malloc {nm} 1", "dpr malloc 0 1"], ["dpr malloc 0 0", "dpr malloc 0 1", "dpr state"],
+                               ["dpr malloc x 1", "dpr mreset 9", f"dpr malloc 0 {1 << 32}", "dpr malloc 0 1"],
+                               ["dpr mnew 60", "dpr mnew 64", "dpr mnew 68", "dpr mnew 72", "dpr state"], ["dpr mreset", "dpr malloc 0", "dpr mnew"]])
+        cases.append(Case(ops))
+    return cases
+
+
+MONO_CORPUS = [
+    # seeded C28b: pool exhausted from the monotone side, requests that must fail, retried
+    Case(["dpr new 1", "dpr mnew 40"] + ["dpr malloc 0 512"] * 2 + ["dpr malloc 0 1024"] * 31 + ["dpr malloc 0 512", "dpr malloc 0 512", "dpr malloc 0 1", "dpr state"]),
+    # exhausted from the free-list side; retry after a release; failed growth, then reset
+    Case(["dpr new 1", "dpr mnew 40", "dpr grow 0 4 31", "dpr malloc 0 500", "dpr malloc 0 600", "dpr malloc 0 100", "dpr mreset 0",
+          "dpr malloc 0 10", "dpr release 0 100", "dpr malloc 0 10", "dpr mreset 0", "dpr state"]),
+    # more chunks than remain; fragmentation: no run of two chunks
+    Case(["dpr new 2", "dpr mnew 40", "dpr mnew 44"] + [f"dpr grow {j % 2} {4 * (j % 2 + 1)} 1" for j in range(32)] + ["dpr releaseall 1",
+          "dpr malloc 0 1025", "dpr malloc 0 1024", "dpr malloc 1 1024", "dpr malloc 1 2000", "dpr malloc 0 1", "dpr mreset 0", "dpr mreset 1", "dpr malloc 1 33792"]),
+    Case(["dpr new 1", "dpr mnew 40", "dpr malloc 0 0", "dpr malloc 0 1"]),
+    Case(["dpr new 1", "dpr malloc 0 1", "dpr mnew x", "dpr mnew 40", "dpr malloc 1 1", "dpr malloc 0 4294967296", "dpr mreset 1", "dpr mreset 0"]),
+]
+
+
+def _free_runs_of(desc):
+    runs, cur = [], 0
+    for x in desc[1:-1]:                    # chunks DFIRST..DLAST
+        if x == 0:
+            cur += 1
+        else:
+            if cur: runs.append(cur)
+            cur = 0
+    if cur: runs.append(cur)
+    return runs
+
+
+def mono_oracle(case, out, debug=True):
+    """C28's statement for discontiguous monotone page resources, evaluated on the implementation's answers and dumps only:
+    every grant is page aligned, of the requested size, inside chunks that carry the resource's descriptor and lie on the
+    resource's own region list, disjoint from every live grant of every resource; reserved == committed == live granted
+    pages after every op; a failed request changes nothing (and is only refused when neither the current region nor the
+    pool can serve it); after a reset the resource owns nothing; no chunk is lost."""
+    bad = []
+    descs, grants, prev, dead, malformed = [], [], None, False, False
+
+    def add(k, w):
+        if k not in [b[0] for b in bad]:
+            bad.append((k, w))
+
+    def common(op, st, ms):
+        # accounting
+        for k, m in enumerate(ms):
+            tot = sum(n for _, _, n in grants[k])
+            if m["res"] != tot or m["com"] != tot:
+                add("mono:counters-ne-granted", f"{op}: resource {k}: reserved={m['res']} committed={m['com']} but {tot} pages are granted ({len(grants[k])} live grants)")
+            if m["grants"] != grants[k]:
+                add("dpr:unparsable-output", f"{op}: resource {k}: the dump lists grants {m['grants'][:4]}, the answers were {grants[k][:4]}")
+        # every chunk belongs to exactly the resource whose list it is on; none is lost
+        exp = [0] * (DN + 2)
+        on_lists = 0
+        lists = [(4 * (sp + 1), l) for sp, l in enumerate(st["lists"])] + [(descs[k], m["list"]) for k, m in enumerate(ms)]
+        for sp, l in enumerate(st["lists"]):
+            for c, n, _ in l:
+                if exp[c - DFIRST + 1:c - DFIRST + 1 + n] != [0] * n or c < DFIRST or c + n - 1 > DLAST:
+                    add("mono:regions-overlap", f"{op}: region [{c},{c + n}) of space {sp} overlaps another region or leaves the range")
+        for d, l in lists:
+            for c, n, _ in l:
+                on_lists += n
+                for x in range(c, c + n):
+                    if DFIRST <= x <= DLAST:
+                        if exp[x - DFIRST + 1] not in (0, d) :
+                            add("mono:regions-overlap", f"{op}: chunk {x} is on the region lists of two resources")
+                        exp[x - DFIRST + 1] = d
+                    else:
+                        add("mono:regions-overlap", f"{op}: region [{c},{c + n}) leaves the range")
+        if st["avail"] + on_lists != DN:
+            add("mono:chunks-lost", f"{op}: avail={st['avail']} + {on_lists} chunks on the region lists != {DN}")
+        if not dead_desc[0] and st["desc"] != exp:
+            add("map32:descriptor-exact", f"{op}: descriptors {st['desc']} != owners by the region lists {exp}")
+
+    dead_desc = [False]
+    for op, o in zip(case.ops, out):
+        t = op.split()
+        if t[0] != "dpr":
+            continue
+        if o == "no-instance":
+            dead = True          # not a history (produced by shrinking)
+            continue
+        if t[1] == "release" and len(t) == 4 and not dead:
+            try:
+                if prev is None or int(t[3]) not in [r[0] for r in prev[0]["lists"][int(t[2])]]:
+                    dead = malformed = True     # the space does not own that region: not a protocol-respecting history
+                    continue
+            except (ValueError, IndexError):
+                dead = malformed = True
+                continue
+        if o.startswith(("panic", "crash", "deadlock")):
+            legit = malformed or (t[1] == "malloc" and len(t) == 4 and t[3] == "0")
+            if o == "deadlock" and not dead:
+                pm = prev[1][int(t[2], 0)] if prev else {}
+                add("mono:debug-self-deadlock-after-multichunk-grant", f"{op}: debug builds never answer this request: the cursor {pm.get('cursor')} is "
+                    f"two or more chunks above the current chunk {pm.get('cc')}, so alloc_pages calls log_chunk_fields (sync.lock()) while holding the sync mutex")
+            elif not dead and not legit:
+                add("mono:panics", f"{op}: {o} on a protocol-respecting history")
+            dead = True
+            continue
+        if o == "bad-op":
+            malformed = True
+            continue
+        if dead:
+            continue
+        try:
+            if t[1] == "new":
+                descs, grants, prev = [], [], None
+                continue
+            head, _, rest = o.partition(" ")
+            if t[1] == "state":
+                rest = o
+            elif t[1] == "malloc" and head == "ok":
+                # `ok <chunk>+<off> <pages> new_chunk=<b> <state>`
+                f = rest.split(" ", 3)
+                rest = f[3]
+            st = parse_dpr_state(rest)
+            ms = parse_mono(rest)
+            if t[1] == "mnew":
+                descs.append(int(t[2], 0)); grants.append([])
+            elif t[1] == "malloc":
+                k, pages = int(t[2], 0), int(t[3], 0)
+                if head == "ok":
+                    c, off = (int(x) for x in f[0].split("+"))
+                    n = int(f[1])
+                    if off % 4096:
+                        add("mono:grant-unaligned", f"{op}: granted start {c}+{off} is not page aligned")
+                    if n != pages:
+                        add("mono:grant-wrong-size", f"{op}: {n} pages granted")
+                    a, e = c * PGC + off // 4096, c * PGC + off // 4096 + n            # page numbers
+                    chunks = range(a // PGC, (e - 1) // PGC + 1) if n else range(a // PGC, a // PGC + 1)
+                    inside = all(DFIRST <= x <= DLAST and st["desc"][x - DFIRST + 1] == descs[k] for x in chunks)
+                    onlist = any(r[0] * PGC <= a and e <= (r[0] + r[1]) * PGC for r in ms[k]["list"])
+                    if not inside or not onlist:
+                        add("mono:grant-outside-space", f"{op}: granted pages [{c}+{off}, +{n} pages) = chunks {list(chunks)[:4]} do not lie in chunks "
+                            f"carrying the resource's descriptor {descs[k]} / on its region list {ms[k]['list'][:4]} (the pool: avail={st['avail']})")
+                    for k2, gl in enumerate(grants):
+                        for (c2, o2, n2) in gl:
+                            a2 = c2 * PGC + o2 // 4096
+                            if a < a2 + n2 and a2 < e:
+                                add("mono:grant-overlaps", f"{op}: granted [{c}+{off}, +{n} pages) overlaps the live grant [{c2}+{o2}, +{n2} pages) of resource {k2}")
+                    for sp, l in enumerate(st["lists"]):
+                        for (c2, n2, _) in l:
+                            if a < (c2 + n2) * PGC and c2 * PGC < e:
+                                add("mono:grant-in-foreign-region", f"{op}: granted [{c}+{off}, +{n} pages) lies in region [{c2},{c2 + n2}) of space {sp}")
+                    grants[k].append((c, off, n))
+                elif head == "fail" and prev is not None:
+                    pst, pms = prev
+                    rc = -(-pages // PGC)
+                    fits = pms[k]["cursor"] + pages * 4096 <= pms[k]["sentinel"]
+                    if fits or max([0] + _free_runs_of(pst["desc"])) >= rc:
+                        add("mono:refused-although-available", f"{op}: refused although {'the current region has room' if fits else f'the pool has a free run of {rc} chunks'}")
+                    strip = lambda m: {x: m[x] for x in ("res", "com", "head", "list", "grants")}
+                    if (pst["avail"], pst["heads"], pst["lists"], pst["desc"]) != (st["avail"], st["heads"], st["lists"], st["desc"]) or \
+                       [strip(m) for m in pms] != [strip(m) for m in ms] or [m for j, m in enumerate(pms) if j != k] != [m for j, m in enumerate(ms) if j != k]:
+                        add("mono:failed-request-changes-accounting", f"{op}: a failed request changed the region lists / descriptors / counters: before {pst} {pms}, after {st} {ms}")
+                    elif pms[k] != ms[k]:
+                        add("mono:failed-growth-forgets-region", f"{op}: the failed request changed the resource's cursor/sentinel/current chunk from "
+                            f"{pms[k]['cursor']}/{pms[k]['sentinel']}/{pms[k]['cc']} to {ms[k]['cursor']}/{ms[k]['sentinel']}/{ms[k]['cc']}: the "
+                            f"{(pms[k]['sentinel'] - pms[k]['cursor']) // 4096} pages left in its current region can no longer be granted")
+            elif t[1] == "mreset":
+                k = int(t[2], 0)
+                grants[k] = []
+                m = ms[k]
+                if m["head"] != 0 or m["list"] or descs[k] in st["desc"]:
+                    add("mono:reset-keeps-chunks", f"{op}: after reset() the resource accounts for 0 pages but still owns the regions {m['list']} "
+                        f"(head {m['head']}; cursor was {prev[1][k]['cursor'] if prev else '?'} before the reset; avail={st['avail']})")
+                if (m["cursor"], m["sentinel"], m["cc"]) != (0, 0, "0"):
+                    add("mono:reset-keeps-cursor", f"{op}: cursor/sentinel/current chunk = {m['cursor']}/{m['sentinel']}/{m['cc']} after reset()")
+            common(op, st, ms)
+            prev = (st, ms)
+        except Exception as e:
+            add("dpr:unparsable-output", f"{op}: cannot interpret {o[:120]!r} ({e!r})")
+            break
+    return bad
+
+
+def mono_nontrivial(case, out):
+    """at least one grant, one refused request and (a later grant or a reset)"""
+    heads = [o.split(" ", 1)[0] for op, o in zip(case.ops, out) if op.startswith("dpr malloc")]
+    return "ok" in heads and "fail" in heads
+
+
+def mono_summarize(cases, outs, h):
+    for c, o in zip(cases, outs):
+        prev_fail = set()
+        for op, x in zip(c.ops, o):
+            t = op.split()
+            key = f"dpr:{t[1]}" if len(t) > 1 else "dpr:?"
+            head = x.split(" ", 1)[0]
+            if len(t) == 4 and t[1] == "malloc":
+                if head == "ok":
+                    key += ":grant-new-region" if "new_chunk=1" in x else ":grant-bump"
+                    if t[2] in prev_fail:
+                        h["dpr:malloc:grant-after-failure"] = h.get("dpr:malloc:grant-after-failure", 0) + 1
+                    prev_fail.discard(t[2])
+                    if t[3].isdigit() and int(t[3]) > PGC:
+                        h["dpr:malloc:grant-multi-chunk"] = h.get("dpr:malloc:grant-multi-chunk", 0) + 1
+                elif head == "fail":
+                    key += ":refused"
+                    if t[2] in prev_fail:
+                        h["dpr:malloc:refused-again"] = h.get("dpr:malloc:refused-again", 0) + 1
+                    prev_fail.add(t[2])
+                    if " avail=0 " in " " + x:
+                        h["dpr:malloc:refused-pool-empty"] = h.get("dpr:malloc:refused-pool-empty", 0) + 1
+                    else:
+                        h["dpr:malloc:refused-no-run-of-required-chunks"] = h.get("dpr:malloc:refused-no-run-of-required-chunks", 0) + 1
+                else:
+                    key += ":" + head
+            elif t[1:2] == ["mreset"] and len(t) == 3:
+                key += ":after-failure" if t[2] in prev_fail else ""
+                prev_fail.discard(t[2])
+            elif head in ("bad-op",) or head.startswith("panic"):
+                key += ":" + head
+            h[key] = h.get(key, 0) + 1
+
+
+# ================================================================================================
 # Real collections under the compressed-pointer layout (Map32 + SFTSparseChunkMap in the live instance)
 # ================================================================================================
 import json, random, re, hashlib
